@@ -111,8 +111,16 @@ func (c ConditionFunction) Evaluate(a interface{}, b interface{}) (bool, error) 
 	}
 	switch c {
 	case ConditionEqual:
+		if x.Kind() == reflect.Slice {
+			// sets are unordered
+			return sliceContains(x, y) && sliceContains(y, x), nil
+		}
 		return reflect.DeepEqual(a, b), nil
 	case ConditionNotEqual:
+		if x.Kind() == reflect.Slice {
+			// sets are unordered
+			return !(sliceContains(x, y) && sliceContains(y, x)), nil
+		}
 		return !reflect.DeepEqual(a, b), nil
 	case ConditionIncludes:
 		switch x.Kind() {
